@@ -186,6 +186,13 @@ def main(argv):
     summary["seconds"] = round(time.time() - t0, 1)
     os.makedirs(os.path.join(VERIF, "out"), exist_ok=True)
     json.dump({"summary": summary, "cases": results}, open(os.path.join(VERIF, "out", "conformance.json"), "w"), indent=1)
+    if not argv:
+        # committed digest of the last full run (per case: paths explored, inputs compared, verdict)
+        digest = {"summary": summary, "corpus_hash": build._hash_dir(CONF)[:16],
+                  "cases": {(r.get("registry_name") or n): {"paths": r["paths"], "inputs": r["rows"],
+                            "verdict": "mismatch" if r["mismatches"] else ("unsupported: " + r["unsupported"][0][:100] if r["unsupported"] else "agree")}
+                            for n, r in results.items()}}
+        json.dump(digest, open(os.path.join(CONF, "RESULTS.json"), "w"), indent=1, sort_keys=True)
     for n in sel:
         r = results[n]
         nm = r.get("registry_name") or n
